@@ -206,6 +206,12 @@ Theorem C08_lifecycle_writers_pinned : lifecycle_writers = pinned_writers.
 Proof. exact lifecycle_writers_pinned. Qed.
 Print Assumptions C08_lifecycle_writers_pinned.
 
+(* no registered proposal handler (of any module) swallows an error of one of its steps: table regenerated from
+   app.go + the handlers' sources on every run; a new `if err != nil { log; continue }` breaks this *)
+Theorem C08_handler_error_shapes_pinned : handler_error_shapes = pinned_handler_shapes.
+Proof. exact handler_error_shapes_pinned. Qed.
+Print Assumptions C08_handler_error_shapes_pinned.
+
 (* ---- chk_sound: the spec checker (Model/C08Check.v) applied to REAL observations decides with
    functions that agree with the model's oracles, and the clauses it evaluates at a finalisation,
    an application and an accepted vote hold in EVERY run of the instantiated model ([cP] = the
